@@ -50,8 +50,95 @@ APPS = ['va', 'vb', 'vc', 'vd']
 PREFIX_TABLES = ['t', 't_x', 't_x_y', 't_x_y_z', 'tt', 't_']
 
 
+def _gen_relabel_purge(rng):
+    """An installed app changes its label (AppConfig.label +
+    RenameAppLabel with a legacy label) in the very run that purges another,
+    really removed app: only the removed app's tables may go."""
+    intf = lambda n: {'name': n, 'kind': 'Integer', 'attrs': {'null': True}}
+    item = {'name': 'Item', 'fields': [intf('a')], 'meta': {}}
+    va = [item]
+    if rng.random() < 0.6:
+        part = {'name': 'Part', 'fields': [intf('b')], 'meta': {}}
+        va.append(part)
+        if rng.random() < 0.6:
+            item['fields'].append({
+                'name': 'r', 'kind': rng.choice(['ManyToMany', 'ForeignKey']),
+                'attrs': {}, 'to': 'va.Part'})
+            if item['fields'][-1]['kind'] == 'ForeignKey':
+                item['fields'][-1]['attrs']['null'] = True
+    vb = [{'name': 'Node', 'fields': [intf('n')], 'meta': {}}]
+    if rng.random() < 0.4:
+        vb[0]['fields'].append({'name': 'm', 'kind': 'ManyToMany',
+                                'attrs': {}, 'to': 'vb.Node'})
+    project = {'apps': {
+        'va': {'v0': va, 'labels': ['va', 'newa'], 'steps': [{'evos': [
+            {'label': 'relabel', 'mutations': [
+                {'op': 'RenameAppLabel', 'old': 'va', 'new': 'newa',
+                 'legacy': 'va'}]}]}]},
+        'vb': {'v0': vb, 'steps': [{'evos': []}]}},
+        'order': rng.choice([['va', 'vb'], ['vb', 'va']]),
+        'databases': ['default']}
+    rows = {'va_item': [{'id': 1, 'a': 5}, {'id': 2, 'a': None}],
+            'vb_node': [{'id': 1, 'n': 7}]}
+    return {'kind': 'relabel_purge', 'project': project, 'rows': rows,
+            'removed': ['vb']}
+
+
+def _exec_relabel_purge(scn, res, stats, viols):
+    P = scn['project']
+    sts = proj.states(P)
+    with runner.Workspace() as ws:
+        r0 = common.install(ws, P, sts, 0, scn['rows'])
+        if getattr(r0, 'rows_rejected', None) or r0.status != 'ok':
+            raise runner.HarnessError('relabel_purge install: %s %s' % (
+                r0.status, getattr(r0, 'rows_rejected', None)))
+        base = snapshot.snapshot(ws)
+        mine = owned_tables(sts[0], ['vb'])
+        others = owned_tables(sts[0], ['va'])
+        detail = dict(kind='relabel_purge', removed=['vb'],
+                      tables=sorted(mine | others))
+        proj.deploy(ws, P, 1, sts, apps=['va'], clean=True)
+        r = ws.run('evolve', {'execute': True, 'purge': True})
+        s2 = snapshot.snapshot(ws)
+        res['runs'] = ws.nruns
+        res['shape'] = spec.canon(['relabel_purge', sorted(mine | others),
+                                   P['order']])
+        stats['relabel_purge_scenarios'] = 1
+        if r.status != 'ok':
+            viols.append(violation(
+                'C15.purge_failed', status=r.status,
+                msg=((r.exit or {}).get('msg') or '')[:200], **detail))
+            return res
+        left = sorted(t for t in mine if t in s2['tables'])
+        if left:
+            viols.append(violation('C15.owned_table_left', left=left,
+                                   **detail))
+        dropped = sorted(t for t in others if t not in s2['tables'])
+        if dropped:
+            viols.append(violation('C15.foreign_table_dropped',
+                                   dropped=dropped, **detail))
+        for d in common.bystander_diffs(
+                base, s2, [t for t in others if t in s2['tables']]):
+            viols.append(violation('C15.bystander_changed', **dict(
+                detail, diff=d)))
+        a2 = c03.stored_apps(s2) or {}
+        if 'vb' in a2 or 'va' in a2:
+            viols.append(violation('C15.sig_entries',
+                                   still=sorted(set(a2) & {'va', 'vb'}),
+                                   **detail))
+        if 'newa' not in a2:
+            viols.append(violation('C15.sig_entries', missing='newa',
+                                   **detail))
+        res['nontrivial'] = bool(mine - set(s2['tables']))
+        res['sample'] = {'kind': 'relabel_purge', 'order': P['order'],
+                         'owned': sorted(mine), 'others': sorted(others)}
+    return res
+
+
 def generate(seed, index, tier):
     rng = scenarios.derive_rng(seed, ID, index)
+    if index % 10 == 9:
+        return _gen_relabel_purge(rng)
     cfg = gen.default_config()
     cfg['relations'] = True
     cfg['m2m'] = rng.random() < 0.7
@@ -141,6 +228,8 @@ def execute(scn):
     apps = P['order']
     res = {'violations': viols, 'stats': stats, 'nontrivial': False,
            'shape': None, 'runs': 0}
+    if scn['kind'] == 'relabel_purge':
+        return _exec_relabel_purge(scn, res, stats, viols)
     st0 = sts[0]
     topo = []
     for a in apps:
@@ -280,6 +369,8 @@ def execute(scn):
 
 def shrinks(scn):
     P = scn['project']
+    if scn['kind'] == 'relabel_purge':
+        return
     if scn.get('fault'):
         c = copy.deepcopy(scn)
         c.pop('fault')
